@@ -30,6 +30,8 @@ RULE = ('Hypothesis generates an abstract package (1..8 models with names in sty
         'distance settings. One evaluation = both formats convolved + three fitter variants. Non-trivial = >= 2 models and '
         'a non-identity table permutation; distinct = distinct canonical JSON.')
 RULE += (' ' + 'Also varied: stored units of SED files / cube / error columns, aperture axis stored in any order, SED files plain / .gz / in sub-directories, parameters.fits.gz, distance ranges that are a whole number of the package\'s steps up to rounding (relation: all variants use ONE distance grid). Entry "grid": the same convolved fluxes as a per-file and as a cube package fitted over such ranges (typed round numbers in pc / kpc).')
+RULE += (' ' + 'All four fitter variants (per-file, cube, cube+memmap, cube+memmap with reversed filters) are set up before any is used. Model names also come in styles whose <name>_sed.fits files sort differently from the names, and as ordinary words.')
+RULE += (' ' + 'In 3 of 5 cases one more filter is convolved into both packages at the end of the session, after write_parameters / write_parameter_ranges / extract_parameters ran on a fit; its file must follow the same row order and hold the same values.')
 ASSUMPTIONS = [
     'per-file vs cube convolved values: 1e-10 relative for float64 cubes, 1e-5 for float32 cubes',
     'fits of each variant are checked against the reference fitter built from the exact reference convolution '
@@ -68,13 +70,15 @@ def cases(draw):
     ns = draw(st.integers(1, 3))
     c['sources'] = [draw(gen.sources(nf, k=k, logmodels=logmodels, distance_mode=pkg['apdep'], ignored='positive',
                                      name='src%d' % i)) for i in range(ns)]
+    # one more filter convolved into the packages at the end of the session, after this tool was used on a fit
+    c['late_filter'] = draw(st.sampled_from([None, None, 'write_parameters', 'write_parameter_ranges', 'extract_parameters']))
     return c
 
 
 def emit_v1_subdirs(pkg, d, n):
     """per-file package with seds/<first n letters>/<name>_sed.fits and length_subdir = n"""
     convpkg.emit(dict(pkg, sed_layout='gz' if pkg.get('sed_layout', 'flat').endswith('gz') else 'flat'), d, 'v1')
-    pkgio.write_conf(d, pkg['apdep'], pkg['logd_step'], version=None, length_subdir=n)
+    pkgio.write_conf(d, pkg['apdep'], pkg['logd_step'], version=None, length_subdir=n, style=pkg.get('conf_style', 0))
     sdir = os.path.join(d, 'seds')
     for fn in sorted(os.listdir(sdir)):
         sub = os.path.join(sdir, fn[:n])
@@ -180,6 +184,7 @@ def run_case(case, ctx):
         else:
             dr = [1., 2.] * u.kpc
         reported_sc = {}
+        last_info = {}
         # all variants are set up first and stay alive while each is used (fitters do not share state); the last one lists the
         # filters in reverse order
         nfl = len(filters)
@@ -198,6 +203,7 @@ def run_case(case, ctx):
                             err=[src['err'][j] for j in perm])
                 with must_succeed('Fitter.fit'), quiet():
                     info = fitter.fit(gen.source_object(psrc))
+                last_info[d] = info
                 got = [str(x).strip() for x in info.model_name]
                 if sorted(got) != sorted(names):
                     fail('%s package: fit lists models %r' % (what, got), 'c07:fit_model_set')
@@ -239,6 +245,74 @@ def run_case(case, ctx):
                     ', '.join('%s -> %r' % (w, [len(grids[gi]) for gi in v]) for w, v in sorted(fits.items())),
                     [len(g) for g in grids]), 'c07:formats_disagree_fit')
             labels.add('distance_grid_ambiguous_by_rounding')
+        # ---- "memory-mapped or not, agree" also holds when the fitter is asked to drop resolved models: both fitters read the
+        #      same cube, so they reject the same (model, distance) pairs; what remains differs by single-precision storage only
+        src0 = case['sources'][0]
+        rflags = [0 if f in (2, 3) else f for f in src0['flags']]   # (limit penalties jump, the bound below is for smooth terms)
+        if pkg['apdep'] and nap > 1 and any(f in (1, 4) for f in rflags):
+            rsrc = dict(src0, flags=rflags)
+            res = {}
+            for memmap in (False, True):
+                with must_succeed('Fitter(remove_resolved=True, use_memmap=%r) on the cube package' % memmap), quiet():
+                    rf_ = Fitter(fnames, aps, d2, extinction_law=law, av_range=list(case['av_range']), distance_range=dr,
+                                 use_memmap=memmap, remove_resolved=True)
+                    ri = rf_.fit(gen.source_object(rsrc))
+                res[memmap] = dict((str(n_).strip(), (float(c_), float(s_))) for n_, c_, s_ in zip(ri.model_name, ri.chi2, ri.sc))
+                del rf_
+            W = sum(b[2] for b in of.transform_source(rsrc['flags'], rsrc['flux'], rsrc['err']))
+            # single-precision storage moves a log10 flux by < 3e-8, and log10 itself is then evaluated in single precision
+            # (1.2e-7 relative to |log10 flux|, cf. oracle_fit.float32_slack); the fit is a minimum over A_V and distance, so its
+            # chi^2 moves by no more than the objective does
+            lmax = max(abs(math.log10(v)) for f in filters for row in refs[f['name']] for v in row) + \
+                2. * max(abs(math.log10(x)) for x in dk)
+            delta = 4. * (3e-8 + 1.2e-7 * lmax)
+            dropped = 0
+            for name in names:
+                (c1, s1), (c2, s2) = res[False][name], res[True][name]
+                if not (math.isfinite(c1) and math.isfinite(c2)):
+                    dropped += 1
+                    if c1 != c2 and not (c1 != c1 and c2 != c2):
+                        fail('remove_resolved=True, cube package, model %s: chi2 %r when the fluxes are held in memory, %r when '
+                             'they are memory-mapped' % (name, c1, c2), 'c07:formats_disagree_fit')
+                    continue
+                big = max(abs(c1), abs(c2))
+                tol = 2. * delta * math.sqrt(W * big) + W * delta ** 2 + 1e-9 * (1. + big)
+                if abs(c1 - c2) > tol:
+                    fail('remove_resolved=True, cube package, source %s, model %s: chi2 %r (best distance 10^%r kpc) when the fluxes '
+                         'are held in memory, %r (10^%r kpc) when they are memory-mapped; single-precision storage explains at '
+                         'most %.3g' % (src0['name'], name, c1, s1, c2, s2, tol), 'c07:formats_disagree_fit')
+            labels.add('remove_resolved_memmap_on_off')
+            if dropped:
+                labels.add('remove_resolved_drops_a_model_entirely')
+        # ---- a filter added later in the same session: after fits were made and listed (the post-processing tools read the
+        #      parameter table too), one more filter is convolved into each package; its file follows the same rules
+        if case.get('late_filter') and last_info:
+            from sedfitter import write_parameters, write_parameter_ranges, extract_parameters
+            late = dict(filters[0], name='late_added')
+            for d, fmt, what in ((d1, 'v1', 'per-file'), (d2, 'v2', 'cube')):
+                if d not in last_info:
+                    continue
+                with must_succeed('%s on a fit of the %s package' % (case['late_filter'], what)), quiet():
+                    if case['late_filter'] == 'write_parameters':
+                        write_parameters(last_info[d], os.path.join(d, 'listing.txt'), select_format=('A', 0))
+                    elif case['late_filter'] == 'write_parameter_ranges':
+                        write_parameter_ranges(last_info[d], os.path.join(d, 'ranges.txt'), select_format=('A', 0))
+                    else:
+                        extract_parameters(input=last_info[d], output_prefix=os.path.join(d, 'extract_'), output_suffix='.txt')
+                with must_succeed('convolve_model_dir (%s format, one more filter after %s)' % (what, case['late_filter'])), quiet():
+                    convolve_model_dir(d, [convpkg.filter_object(late)])
+                t0 = pkgio.read_convolved(os.path.join(d, 'convolved', filters[0]['name'] + '.fits'))
+                t = pkgio.read_convolved(os.path.join(d, 'convolved', 'late_added.fits'))
+                order = convpkg.table_order(pkg, fmt)
+                if t['names'] != order:
+                    fail('%s format, filter convolved after %s was used on a fit: rows %r, expected the %s order %r' % (
+                        what, case['late_filter'], t['names'], 'parameter-table' if fmt == 'v1' else 'cube', order), 'c07:row_order')
+                for row, name in enumerate(t['names']):
+                    for p_ in range(nap):
+                        if abs(t['flux'][row][p_] - t0['flux'][row][p_]) > 1e-12 * abs(t0['flux'][row][p_]):
+                            fail('%s format, the same filter convolved later under another name: row %s holds %r, the earlier '
+                                 'file has %r' % (what, name, t['flux'][row][p_], t0['flux'][row][p_]), 'c07:row_holds_other_model')
+            labels.add('late_filter_after_' + case['late_filter'])
     return labels, len(names) >= 2 and permuted
 
 
